@@ -48,6 +48,8 @@ def main() -> None:
             title = next((l.lstrip("# ").strip() for l in first if l.strip()), "")
             stale = m.get("final_head", {}).get("still_valid") is False
             verdict = "(invalidated by a later fix commit) " if stale else ""
+            if m.get("owner_verdict") and not m.get("detected_with_failing_input"):
+                verdict += "judged NOT a violation of the property by the check's owner (see meta.json); "
             verdict += "caught, failing input" if m.get("detected_with_failing_input") else ("caught, no-failing-input-found" if m.get("detected") else "MISSED")
             rows.append(f"| {m['id']} | {title[:110]} | {verdict} | {', '.join('`' + k + '`' for k in keys[:2])}{' …' if len(keys) > 2 else ''} |")
     seeded = (f"{tot} confirmed changes over {len(by_prop)} properties; the property's own quick check reported {det} of them, {inp} with a concrete failing "
